@@ -73,9 +73,54 @@ type pool struct {
 func newPool(r *Rng, n int) *pool {
 	p := &pool{r: r}
 	for i := 0; i < n; i++ {
+		if i > 0 && r.Chance(1, 2) {
+			p.keys = append(p.keys, nearKey(r, p.keys[r.Intn(i)]))
+			continue
+		}
 		p.keys = append(p.keys, r.Bytes(32))
 	}
 	return p
+}
+
+// nearKey is a different key that a careless comparison takes for k: one byte changed (anywhere, the
+// first, the last), two bytes changed so that the differences cancel in a sum (0x80+0x80, d+(256-d)) or
+// in an exclusive-or, two bytes exchanged, the key reversed, one half kept
+func nearKey(r *Rng, k []byte) []byte {
+	o := append([]byte(nil), k...)
+	i, j := r.Intn(32), r.Intn(31)
+	if j >= i {
+		j++
+	}
+	d := byte(1 + r.Intn(255))
+	switch r.Intn(9) {
+	case 0:
+		o[i] ^= d
+	case 1:
+		o[0] ^= d
+	case 2:
+		o[31] ^= d
+	case 3:
+		o[i] ^= 0x80
+		o[j] ^= 0x80
+	case 4:
+		o[i] ^= d
+		o[j] ^= byte(256 - int(d))
+	case 5:
+		o[i] ^= d
+		o[j] ^= d
+	case 6:
+		o[i], o[j] = o[j], o[i]
+	case 7:
+		for a, b := 0, 31; a < b; a, b = a+1, b-1 {
+			o[a], o[b] = o[b], o[a]
+		}
+	default:
+		copy(o[16*r.Intn(2):], r.Bytes(16))
+	}
+	if bytes.Equal(o, k) {
+		o[i] ^= 1
+	}
+	return o
 }
 
 func entry(k []byte) string {
